@@ -95,6 +95,66 @@ Record app := mkApp {
   a_data : data                        (* `App::app_data` : the root container, always present *)
 }.
 
+(* ------------------------------------------------------------ registration: builder calls *)
+(* How a route table comes about: `App::new()` / `web::scope(..)` followed by builder calls.
+   A resource or a scope is itself a call (`.service(it)`); a scope is given by ITS calls.
+   `configure(f)` on an App / Scope runs [f] on a fresh `ServiceConfig` and merges the result;
+   `ServiceConfig::configure(f)` is `f(self)`. *)
+Inductive bld :=
+| BRes (pats : patterns) (guards : list guard) (routes : list route_entry)
+       (default : option N) (dat : option data)        (* .service(web::resource(..)…) *)
+| BScope (prefix : pattern) (guards : list guard) (calls : list bld)   (* .service(web::scope(..)…) *)
+| BDefault (id : N)                                     (* .default_service(..) *)
+| BData (k v : N)                                       (* .app_data(..) *)
+| BConfigure (calls : list bld).                        (* .configure(|cfg| …) *)
+
+(* the fields the calls act on (Scope / App / ServiceConfig): services, app_data, default *)
+Record bst := mkB { b_services : list node; b_data : option data; b_default : option N }.
+
+Definition dget (o : option data) : data := match o with Some d => d | None => [] end.
+
+(* [in_cfg] = the receiver is a `ServiceConfig` (inside a configure closure) *)
+Fixpoint apply_call (in_cfg : bool) (b : bld) (s : bst) {struct b} : bst :=
+  match b with
+  | BRes ps gs rts d dat =>
+      mkB (b_services s ++ [Resource ps gs rts d dat]) (b_data s) (b_default s)
+  | BScope pfx gs calls =>
+      (* Scope::new: no services, `app_data: None`, `default: None` *)
+      let sc := (fix run (l : list bld) (t : bst) : bst :=
+                   match l with [] => t | c :: r => run r (apply_call false c t) end)
+                  calls (mkB [] None None) in
+      mkB (b_services s ++ [Scope pfx gs (b_services sc) (b_default sc) (b_data sc)]) (b_data s) (b_default s)
+  | BDefault id =>
+      (* `self.default = Some(..)` *)
+      mkB (b_services s) (b_data s) (Some id)
+  | BData k v =>
+      (* `self.app_data.get_or_insert_with(Extensions::new).insert(data)` *)
+      mkB (b_services s) (Some (dget (b_data s) ++ [(k, v)])) (b_default s)
+  | BConfigure calls =>
+      if in_cfg then
+        (* ServiceConfig::configure : `f(self)` *)
+        (fix run (l : list bld) (t : bst) : bst :=
+           match l with [] => t | c :: r => run r (apply_call true c t) end) calls s
+      else
+        (* App::configure / Scope::configure : fresh ServiceConfig, then
+           `services.extend(cfg.services)`, `app_data.get_or_insert_with(new).extend(cfg.app_data)`,
+           `if let Some(default) = cfg.default { self.default = Some(default) }` *)
+        let c := (fix run (l : list bld) (t : bst) : bst :=
+                    match l with [] => t | c :: r => run r (apply_call true c t) end)
+                   calls (mkB [] (Some []) None) in
+        mkB (b_services s ++ b_services c)
+            (Some (dget (b_data s) ++ dget (b_data c)))
+            (match b_default c with Some d => Some d | None => b_default s end)
+  end.
+
+Fixpoint apply_calls (in_cfg : bool) (l : list bld) (s : bst) : bst :=
+  match l with [] => s | c :: r => apply_calls in_cfg r (apply_call in_cfg c s) end.
+
+(* App::new() … : `extensions` exists from the start *)
+Definition build_app (calls : list bld) : app :=
+  let s := apply_calls false calls (mkB [] (Some []) None) in
+  mkApp (b_services s) (b_default s) (dget (b_data s)).
+
 (* who answers *)
 Inductive handler :=
 | HRoute (id : N)        (* the handler of a route *)
